@@ -10,7 +10,7 @@ func init() {
 	register("C06", []string{"."}, runC06)
 	register("C07", []string{"."}, runC07)
 	propExplain["C06"] = "Decides the ordering/ownership clause of C06 in the commit pipeline: a batch is published only through the nil-error edges of prepare and apply; a large (flushable) batch receives its sequence number before it is queued where flushes and readers can find it; the applied flag is set before the publisher dequeues; only publish advances the visible sequence number (by CAS) and marks a batch applied; only the pipeline applies batches to memtables. Also (O4) memTable.apply links a batch's range deletions and range keys into their skiplists before it invalidates the memtable's cached fragments, and does invalidate them. Does not decide the lock-free queue's interleavings."
-	propExplain["C07"] = "Decides the sequencing clause of C07: sequence-number allocation, enqueueing and the WAL write happen in that order inside one commitPipeline.mu region (WAL order = seqnum order = queue order); only the pipeline and Open/recovery write logSeqNum; the visible sequence number is ratcheted (CAS only on the false edge of new <= cur) and a committer is released only after the publish loop advanced it; Commit does not return before publish; a batch is marked applied only by publish (C06.W1, shared: the ratchet advances over every queued batch carrying the mark). Does not decide the SPMC queue interleavings."
+	propExplain["C07"] = "Decides the sequencing clause of C07: sequence-number allocation, enqueueing and the WAL write happen in that order inside one commitPipeline.mu region (WAL order = seqnum order = queue order); only the pipeline and Open/recovery write logSeqNum; the visible sequence number is ratcheted (CAS only on the false edge of new <= cur) and a committer is released only after the publish loop advanced it; Commit does not return before publish; a batch is marked applied only by publish (C06.W1, shared: the ratchet advances over every queued batch carrying the mark); logSeqNum — the next number to assign — is read only by the sequencing side (memtable rotation, version edits, Open), never to pick a read sequence number (V1). Does not decide the SPMC queue interleavings."
 }
 
 func runC06(c *Ctx) {
@@ -98,6 +98,13 @@ func appliedOnlyByPublish(c *Ctx) {
 
 func runC07(c *Ctx) {
 	appliedOnlyByPublish(c)
+	// C07.V1: logSeqNum is the next sequence number to ASSIGN; it runs ahead of what has been
+	// applied and published. Only the sequencing side reads it (the memtable rotation that stamps a
+	// new memtable, the version edit's LastSeqNum, Open/recovery). A reader that takes its sequence
+	// number from it sees batches that are sequenced but not yet applied (C03-c and C07-c are both
+	// this one-token slip: visibleSeqNum -> logSeqNum).
+	c.Who("C07.V1", MethodOn("Load", "logSeqNum"), "logSeqNum is read only by the sequencing side, never to pick a read sequence number",
+		"p.(*DB).makeRoomForWrite", "p.Open", "p.(*versionSet).UpdateVersionLocked")
 	lockM := MethodOn("Lock", "recv.mu")
 	unlockM := MethodOn("Unlock", "recv.mu")
 	// C07.R1
